@@ -100,6 +100,9 @@ fn opts_for(variant: &str, rng: &mut Rng, tier: Tier) -> WsOpts {
         "plain" => {
             o.imports = false;
             o.same_file_dups = rng.chance(300);
+            if rng.chance(120) {
+                o.file.unicode_test_names_per_mille = 400;
+            }
         }
         "imports" => {
             o.colliding_imports = rng.chance(600);
@@ -272,7 +275,11 @@ impl Scenario for Resolve {
                     Some(g) => exp.accept.iter().any(|i| model.defs[*i].file == g.0 && model.defs[*i].line == g.1 && model.defs[*i].name == g.2),
                 };
                 if !ok {
+                    // usage columns are recorded as byte offsets, the cursor column counts UTF-16 units: right of a
+                    // non-ASCII character the two disagree
+                    let line_text = model.rendered.get(file).and_then(|r| r.text.lines().nth(t.line - 1)).unwrap_or("");
                     let class = match &o.got {
+                        _ if !line_text.is_ascii() => "RC-BYTE-COLUMNS",
                         None => "resolve-missing",
                         Some(_) if exp.accept.is_empty() => "resolve-invisible-returned",
                         Some(g) => classify_wrong(&model, &exp, g),
